@@ -137,9 +137,7 @@ func run(t *testing.T, plan any, keep bool) *simcheck.Outcome {
 		}
 	})
 	out.TraceHash, out.Steps, out.SimTime, out.Trace = rep.TraceHash, rep.Steps, rep.SimTime, rep.Trace
-	if len(rep.Panics) > 0 {
-		out.Violate("panic", "%s", rep.Panics[0])
-	}
+	simcheck.Panics(out, rep.Panics)
 	if rep.Deadlock {
 		out.Violate("deadlock", "no task can run: %s", rep.DescribeBlocked())
 	}
